@@ -13,7 +13,7 @@ TRUSTED = [
     "measurement: the harness (no script installed, so the crate's real sockets are used) runs the real valve / quake / minecraft-java queries and raw exchanges through the crate-private sockets against an in-process loopback server thread (IPv4 and IPv6) and reports result, bytes seen by the server and wall-clock time; the model runs the same query on the equivalent script and yields the number of receives that wait for a full timeout",
     "write timeouts are applied but not exercised (a loopback peer never blocks a small write); scheduling slack 600 ms",
 ]
-RULE = ("HTTP (Eco through ureq) against a web server that is silent / stalls inside the head / stalls inside the body / refuses / closes, with explicit settings, with only some of the durations set, and with none (4 s defaults), TCP connects to a peer that drops the SYN (full accept queue) with connect timeouts of 250-1500 ms; Minecraft auto and legacy queries (five and three sockets in turn) against a peer that accepts and stays silent; UDP (valve, quake 3) and TCP (minecraft java) queries x IPv4 / IPv6 loopback x server silent from the start / after the first reply / after every challenge it hands out / refusing / closing x read timeout 150 / 300 ms (write timeout different from read) x retries 0..2; "
+RULE = ("HTTP (Eco through ureq) against a web server that is silent / stalls inside the head / stalls inside the body / refuses / closes, with explicit settings, with only some of the durations set, and with none (4 s defaults), TCP connects to a peer that drops the SYN (full accept queue) with connect timeouts of 250-1500 ms; Minecraft auto and legacy queries (five and three sockets in turn) against a peer that accepts and stays silent; UDP (valve, quake 3, quake 3 through the generic entry point) and TCP (minecraft java) queries x IPv4 / IPv6 loopback x server silent from the start / after the first reply / after every challenge it hands out / refusing / closing x read timeout 150 / 300 ms (write timeout different from read) x retries 0..2; "
         "raw exchanges through UdpSocket / TcpSocket with payloads of 0, 1, 1024, 1025, 6144, 65487, 65488, 65507 bytes and requested sizes None / 65535; "
         "bounds: elapsed within [k*read - 60 ms, k*read + 600 ms] where k is the model's number of timed-out receives; non-trivial = k > 0 or payload > 1024; distinct by case bytes")
 
@@ -52,6 +52,9 @@ def gen_cases(tier, rng):
                 specs.append(("java-partial", 2, v6, ts, [b"\x10\x00\x05abc"], 0, b"", None))
                 if retries == 0:
                     specs.append(("quake-ok", 1, v6, ts, [QUAKE], 0, b"", None))
+                    # the same through the generic entry point (game of the definitions table, address, port)
+                    specs.append(("generic-quake-ok", 8, v6, ts, [QUAKE], 0, b"", None))
+                    specs.append(("generic-quake-silent", 8, v6, ts, [], 0, b"", None))
                     specs.append(("java-refused", 2, v6, ts, [], 2, b"", None))
                     specs.append(("java-closed", 2, v6, ts, [], 1, b"", None))
         # queries that open several sockets in turn (Minecraft auto: Java, Bedrock, legacy 1.6 / 1.4 / beta 1.8; legacy: the last three):
